@@ -227,6 +227,26 @@ fn main() {
             }
             files.push(FileSpec { name: format!("breakeven\\whole{k}.bin"), class: "break-even", data: d });
         }
+        // every fifth set holds one name twice (exact, other ASCII case, other slash direction) with different content: in the
+        // format these are one name, so the build either refuses the set or the archive answers both with their own content
+        // (which it cannot) - an Ok build falls through to the read-back oracle below
+        let mut dup_kind = None;
+        if idx % 5 == 2 {
+            let src = rng.usize(files.len());
+            let base = files[src].name.clone();
+            let (kind, name) = match rng.below(4) {
+                0 => ("exact", base.clone()),
+                1 => ("upper", base.to_ascii_uppercase()),
+                2 => ("lower", base.to_ascii_lowercase()),
+                _ => ("swapcase+slash", base.chars().map(|ch| if ch == '\\' { '/' } else if ch.is_ascii_lowercase() { ch.to_ascii_uppercase() } else { ch.to_ascii_lowercase() }).collect()),
+            };
+            let dl = 1 + rng.usize(3000);
+            let mut data = rng.bytes(dl);
+            data.extend_from_slice(b"second-content");
+            let at = if rng.bool() { files.len() } else { let n = files.len() + 1; rng.usize(n) };
+            files.insert(at, FileSpec { name, class: "same-name-twice", data });
+            dup_kind = Some(kind);
+        }
         let desc = json!({"cfg": cfg.to_json(), "files": files.iter().map(|f| json!({"name": f.name, "len": f.data.len(), "class": f.class})).collect::<Vec<_>>()});
         let path = scratch.join(format!("c01-{idx}.mpq"));
         run.case(idx, &cfg.class(), desc, |c| {
@@ -242,6 +262,10 @@ fn main() {
                     c.count("build_err", 1);
                     c.note(json!({"build_err": format!("{e}")}));
                     c.nontrivial = false;
+                    if let Some(k) = dup_kind {
+                        c.count(&format!("same_name_twice_refused|{k}"), 1);
+                        c.nontrivial = true;
+                    }
                     if path.exists() {
                         c.violate("build-err-left-destination", "build returned Err but the destination path exists", cfg.to_json());
                     }
@@ -249,6 +273,9 @@ fn main() {
                 Ok(Ok(())) => {
                     c.count("build_ok", 1);
                     c.count(&format!("build_ok|{}", method_name(cfg.method)), 1);
+                    if let Some(k) = dup_kind {
+                        c.count(&format!("same_name_twice_built|{k}"), 1);
+                    }
                     check_archive(c, &cfg, &files, &path, &mut rng);
                 }
             }
